@@ -84,6 +84,22 @@ class Avoid(claripy.annotation.SimplificationAvoidanceAnnotation):
         return "a%d" % self.n
 
 
+class AvoidReloc(Avoid):
+    """a simplification-avoidance annotation of a user subclass that may be relocated"""
+    relocatable = True
+
+    def __repr__(self):
+        return "ar%d" % self.n
+
+
+class AvoidElim(Avoid):
+    """… and one that may be eliminated by expression rewrites: the solver must still leave the constraint alone"""
+    eliminatable = True
+
+    def __repr__(self):
+        return "ae%d" % self.n
+
+
 def all_unelim(a):
     out = set()
     for s in [a] + list(a.children_asts()):
@@ -226,9 +242,36 @@ def run(ctx):
     corpus = [("corpus.shared", "and", [(x8 | y8).annotate(k1), claripy.BVV(255, 8).annotate(k1)]),
               ("corpus.moved", "sub", [(x8 + y8 + 1).annotate(k2), claripy.BVV(2, 8)]),
               ("corpus.moved2", "sub", [(x8 + 1).annotate(k2), claripy.BVV(2, 8)])]
-    for i in range(-len(corpus), n):
+    # directed: neutral / absorbing constants that carry an annotation, next to a nested node of the same operation (the shapes
+    # flattening and the x+0 / x*1 / x&-1 / x|0 / x^0 rules look for) — removing the constant must be refused, not relocated
+    def identity_cases():
+        out = []
+        for _ in range(ctx.pick(150, 2000)):
+            w = rng.choice([1, 4, 8, 32])
+            x, y = claripy.BVS("ix%d" % w, w, explicit_name=True), claripy.BVS("iy%d" % w, w, explicit_name=True)
+            op = rng.choice(["add", "mul", "and", "or", "xor", "sub", "shl", "lshr"])
+            cval = {"add": 0, "sub": 0, "xor": 0, "or": 0, "shl": 0, "lshr": 0, "mul": 1, "and": (1 << w) - 1}[op] if rng.random() < 0.7 else \
+                rng.choice([0, 1, (1 << w) - 1, rng.randrange(1 << w)])
+            c = claripy.BVV(cval, w).annotate(g.anno())
+            if rng.random() < 0.3:
+                c = c.annotate(g.anno())
+            nested_op = op if op in ("add", "mul", "and", "or", "xor") else "add"
+            inner = rng.choice([E.apply_op(nested_op, [x, y]), E.apply_op(nested_op, [x, claripy.BVV(rng.randrange(1 << w), w)]), x,
+                                E.apply_op(nested_op, [x, y]).annotate(g.anno())])
+            args_ = [c, inner] if (rng.random() < 0.5 and op not in ("sub", "shl", "lshr")) else [inner, c]
+            try:
+                out.append(("directed.annotated-identity", op, args_, E.apply_op(op, args_)))
+            except claripy.errors.ClaripyError:
+                pass
+        return out
+    directed = identity_cases()
+    for i in range(-len(corpus) - len(directed), n):
         log = []
-        if i < 0:
+        if i < -len(corpus):
+            name, op_, args_, res_ = directed[i + len(corpus) + len(directed)]
+            log.append((op_, args_, res_))
+            a = res_
+        elif i < 0:
             name, op_, args_ = corpus[i + len(corpus)]
             log.append((op_, args_, E.apply_op(op_, args_)))
             a = log[0][2]
@@ -322,7 +365,7 @@ def run(ctx):
         for j in range(rng.choice([2, 3, 5])):
             c = rng.choice([claripy.And(x + j > 3, y - j < 9), x + 1 + j == y + 1, claripy.Or(x == j, claripy.And(y == 2, y == 2)), (x ^ x) + j != y])
             if rng.random() < 0.5:
-                c = c.annotate(Avoid(1000 + k * 10 + j))
+                c = c.annotate(rng.choice([Avoid, Avoid, AvoidReloc, AvoidElim])(1000 + k * 10 + j))
             cs.append(c)
         s.add(cs)
         try:
